@@ -277,8 +277,8 @@ def run(ctx):
 
 
 def prefix_chain(row, opsets):
-    """is there an operator in operand position (start of the row, or after an operator that is not a right fence and can be infix or
-    prefix) that is directly followed by another operator which is not a left fence?  (- - h, a + - - b)"""
+    """is there an operator in operand position (start of the row, after a left fence, or after an operator that is not a right fence and
+    can be infix or prefix) that is directly followed by another operator which is not a left fence?  (- - h, a + - - b, ( + - 2 )"""
     for i in range(len(row) - 1):
         (k, v), (k2, v2) = row[i], row[i + 1]
         if k != "mo" or k2 != "mo" or v in opsets["left"] or v in opsets["right"] or v2 in opsets["left"] or v2 in opsets["right"]:
@@ -288,7 +288,7 @@ def prefix_chain(row, opsets):
         if i == 0:
             return True
         pk, pv = row[i - 1]
-        if pk == "mo" and pv not in opsets["right"] and (pv in opsets["infix"] or pv in opsets["prefix"]):
+        if pk == "mo" and pv not in opsets["right"] and (pv in opsets["infix"] or pv in opsets["prefix"] or pv in opsets["left"]):
             return True
     return False
 
